@@ -76,6 +76,20 @@ def validate(module: str, traces: list[dict], *, cfg: str | None = None, chunk: 
             res = tlc.run(module, cfg or f"{module}.cfg", workers=1, env={"TRACE_FILE": str(f)},
                           timeout=timeout, dfs=dfs)
         m = re.search(r'<<"VALIDATED", (\d+)>>', res.out)
+        if (not m) and "Overflow when computing" in res.out:
+            # an observed value so far from anything the specification computes that comparing it overflows TLC's 32-bit
+            # integers: that event is not a step of the specification.  Locate it (bisect the batch, then read the position
+            # TLC was evaluating from its error trace) and report it as a rejection - a verdict, not a machinery failure.
+            f.unlink(missing_ok=True)
+            if len(part) > 1:
+                h = len(part) // 2
+                for sub in (part[:h], part[h:]):
+                    rejected += validate(module, sub, cfg=cfg, chunk=max(1, len(sub)), extra_doc=extra_doc, timeout=timeout, dfs=dfs,
+                                         verdict=verdict, label=label + " (overflow bisect)", cfg_text=cfg_text)
+            else:
+                ls = [int(x) for x in re.findall(r"/\\ l = (\d+)", res.out)]
+                rejected.append((part[0], max(ls) if ls else 1))
+            continue
         if not m or int(m.group(1)) != len(part) or res.error or res.violated:
             raise MachineryFailure(f"trace validation run failed for {module}: "
                                    f"violated={res.violated!r} {res.error[:1500]}\n{res.out[-2500:]}")
